@@ -60,6 +60,8 @@ def gen_formula(rng):
     s = " + ".join([rng.choice(["1", "0"])] + terms)
     if rng.random() < 0.2:
         s = f"p ~ {s}" + (" | A" if rng.random() < 0.4 else "")
+    if rng.random() < 0.12:  # operators whose operand is itself an interaction (the product appends several factors at once)
+        s = rng.choice(["1 + x*A:B", "0 + S*A:B", "1 + A/(B:S)", "p ~ B:S %in% A", "1 + x:(A:B:S)", "0 + A*(B*S)", "1 + G/(A:B) + x"])
     if rng.random() < 0.12:  # every other column, in the order the frame at hand holds them
         s = rng.choice(["p ~ .", "p ~ . + x:A", "p + x ~ 0 + ."])
     return s
